@@ -710,6 +710,106 @@ pub fn run_stress(focus: &'static str, seed: u64, index: u64, args: &Args) -> Ca
     CaseOut { findings, counts, signature, nontrivial: all_done.is_ok() && total_ops > 100, sample }
 }
 
+// ------------------------------------------------------------------------------------------------ C14 end-to-end: hits -> pool -> consumer -> sketch
+
+/// Readers hit a few resident keys a known number of times (paced so that nothing is dropped) while a writer storms the
+/// full cache with puts that are all rejected after consulting the sketch (read-lock traffic against the consumer's write
+/// lock). With no ageing inside the case, every key's estimate must be at least min(its recorded hits - what is still
+/// buffered, 15).
+pub fn run_estimate(focus: &'static str, seed: u64, index: u64) -> CaseOut {
+    let mut rng = rt::rng_for(seed, index, 0xE57);
+    let buf = *rng.pick(&[1usize, 2, 4]);
+    let readers = *rng.pick(&[1usize, 2, 4]);
+    let reads_per_reader = rng.range(6, 40);
+    let storm = index % 4 != 3;
+    let sutcfg = SutCfg { counters: 1_000_000, capacity: 16, max_weight: 40, shards: 2, cmd_buf: 8, pool: 1, buf, tick: Duration::from_millis(1),
+        weight_mode: WeightMode::Custom, hash_mode: HashMode::Default, start_ns: rt::START_NS };
+    let case = J::obj().with("engine", J::s("conc")).with("scenario", J::s("estimate")).with("focus", J::s(focus)).with("seed", J::Int(seed as i128)).with("index", J::Int(index as i128))
+        .with("readers", J::u(readers)).with("reads_per_reader", J::Int(reads_per_reader as i128)).with("buffer", J::u(buf)).with("writer_storm", J::Bool(storm));
+    let mut counts = Counts::default();
+    let mut findings = Vec::new();
+    rt::clear_abort();
+    let r = recorder();
+    r.keep.store(false, Ordering::SeqCst);
+    let _ = r.take_events();
+    sched().release_all();
+    sched().quiet();
+    let sut = Sut::new(sutcfg);
+    let marks = sut.marks;
+    let mut setup = Client::new(1);
+    for key in 1..=4u64 { let value = setup.token(key); setup.write(&sut.cache, WriteOp::PutW { key, value, weight: 10 }); }
+    setup.settle_all(&marks);
+    // warm-up: one recorded hit each, so that a never-read incoming key (estimate 0) can never evict a resident
+    for key in 1..=4u64 { let _ = sut.cache.get(&key); }
+    for _ in 0..buf { let _ = sut.cache.get(&1); }
+    let _ = sut.quiesce();
+    let stop = Arc::new(AtomicBool::new(false));
+    let writer = if storm {
+        let (cache, stop) = (sut.cache.clone(), stop.clone());
+        Some(thread::spawn(move || {
+            let mut n = 0u64;
+            while !stop.load(Ordering::Relaxed) {
+                n += 1;
+                let key = 1000 + n % 50;
+                if let Ok(ack) = cache.put_with_weight(key, token(key, 9, n), 10) { let _ = rt::busy_await(ack.handle(), Duration::from_secs(10)); }
+            }
+            n
+        }))
+    } else { None };
+    let mut handles = Vec::new();
+    for t in 0..readers {
+        let cache = sut.cache.clone();
+        handles.push(thread::spawn(move || {
+            let key = 1 + (t as u64 % 4);
+            let mut hits = 0u64;
+            for _ in 0..reads_per_reader {
+                if cache.get(&key).is_some() { hits += 1; }
+                // pace: never let the hand-over queue (capacity 10) fill up, so that no batch is dropped
+                let mut spins = 0;
+                while cache.verif_access_queue_len() >= 6 && spins < 100_000 { thread::yield_now(); spins += 1; }
+            }
+            (key, hits)
+        }));
+    }
+    let mut hits_of: BTreeMap<u64, u64> = BTreeMap::new();
+    for key in 1..=4u64 { hits_of.insert(key, 1); }
+    *hits_of.get_mut(&1).unwrap() += buf as u64;
+    for handle in handles { if let Ok((key, hits)) = handle.join() { *hits_of.entry(key).or_insert(0) += hits; } }
+    stop.store(true, Ordering::SeqCst);
+    let storm_puts = writer.map(|w| w.join().unwrap_or(0)).unwrap_or(0);
+    counts.add("rejected_puts_consulting_the_sketch_during_the_reads", storm_puts);
+    match sut.quiesce() {
+        Err(waited) => match waited {
+            Waited::Deadlock(d) => fail(&mut findings, &["C18", "C14"], "C18/deadlock/estimate".into(), d, case.clone()),
+            other => findings.push(Finding { props: vec!["C14"], signature: "inconclusive/estimate".into(), detail: waited_name(&other), witness: J::Null, inconclusive: true }),
+        },
+        Ok(()) => {
+            let dropped = sut.stat(StatsType::AccessDropped);
+            if dropped > 0 { counts.inc("cases_skipped_because_accesses_were_dropped"); }
+            else {
+                let resident: BTreeSet<u64> = sut.snapshot().stored.iter().map(|e| e.0).collect();
+                for (key, hits) in &hits_of {
+                    if !resident.contains(key) { counts.inc("resident_keys_evicted"); continue; }
+                    let estimate = sut.cache.verif_estimate(key) as u64;
+                    let delivered = hits.saturating_sub(buf as u64);
+                    counts.inc("end_to_end_estimates_checked");
+                    if estimate < delivered.min(15) {
+                        fail(&mut findings, &["C14", "C15"], "C14/estimate-under-counts/end-to-end".into(),
+                             format!("key {} was hit {} times (at most {} still buffered, none dropped, no ageing: {} counters) but its estimated frequency is {}", key, hits, buf, 1_000_000, estimate), case.clone());
+                    }
+                    if estimate >= 15 { counts.inc("saturated_estimates_seen_end_to_end"); }
+                }
+            }
+        }
+    }
+    let signature = fnv_step(fnv_step(fnv_step(0xE57, buf as u64 * 100 + readers as u64), reads_per_reader), storm as u64);
+    let sample = case.clone().with("hits", J::Arr(hits_of.iter().map(|(k, h)| J::s(format!("key {}: {} hits", k, h))).collect()));
+    if let Err(waited) = sut.finish() { if findings.is_empty() { findings.push(Finding { props: vec!["C14"], signature: "inconclusive/finish".into(), detail: waited_name(&waited), witness: J::Null, inconclusive: true }); } }
+    counts.inc("cases");
+    let nontrivial = counts.get("end_to_end_estimates_checked") > 0;
+    CaseOut { findings, counts, signature, nontrivial, sample }
+}
+
 // ------------------------------------------------------------------------------------------------ bare workload (sanitizers, Miri)
 
 /// The same kind of mixed concurrent workload, but with NO harness hooks installed and no shared harness state
